@@ -2,6 +2,7 @@
 //! C32 desc, C30 csm, C29 map32, C31 sft
 pub mod csm;
 pub mod desc;
+pub mod resolve;
 
 use mmtk::util::heap::vm_layout::VMLayout;
 use mmtk::util::Address;
@@ -60,6 +61,7 @@ pub fn dispatch(tokens: &[&str]) -> Option<String> {
     Some(match *c {
         "desc" => desc::run(args),
         "csm" => csm::run(args),
+        "resolve" => resolve::run(args),
         _ => return None,
     })
 }
